@@ -31,6 +31,7 @@ class P:
     pair: tuple = (0, 0)
     peer: Any = None
     idx: int = -1
+    groups: tuple = ()
 
     def big(self):
         # a user predicate that can be told to raise at its j-th call (C04: evaluations aborted by an exception from user code)
@@ -143,7 +144,9 @@ def _alarm(*a):
 
 def make_heap(case):
     seq = list if case.get('list_items') else tuple          # inner collections as (mutable) lists or as tuples
-    objs = [P(a=o[0], b=o[1], s=o[2], items=seq(o[3]), n=o[4], f=o[5], pair=tuple(o[6]), idx=i)
+    nest = lambda g: seq(seq(x) if isinstance(x, list) else x for x in g)       # a collection of collections (and scalars)
+    objs = [P(a=o[0], b=o[1], s=o[2], items=seq(o[3]), n=o[4], f=o[5], pair=tuple(o[6]), idx=i,
+              groups=nest(o[9]) if len(o) > 9 else ())
             for i, o in enumerate(case['heap'])]
     for i, o in enumerate(case['heap']):
         objs[i].peer = objs[o[7]['o']]
@@ -166,6 +169,8 @@ def user_data_intact(case, objs):
     for o, d in zip(objs, case['heap']):
         if (o.a, o.b, o.s, list(o.items), o.n, o.f, list(o.pair)) != (d[0], d[1], d[2], list(d[3]), d[4], d[5], list(d[6])) \
                 or o.peer is not objs[d[7]['o']]:
+            return False
+        if len(d) > 9 and [list(x) if isinstance(x, (list, tuple)) else x for x in o.groups] != d[9]:
             return False
     return True
 
@@ -230,7 +235,7 @@ class Builder:
             return pyval(t[1], self.objs)
         if k == 'subq':
             # t[3] (a term over variable t[1]) read off the sub-query an(entity(variable, cond)); the quantifier object is used here only
-            sub = an(entity(self.vars[t[1]], self.cond(t[2])))
+            sub = (the if len(t) > 4 and t[4] == 'the' else an)(entity(self.vars[t[1]], self.cond(t[2])))
             saved = self.vars[t[1]]
             self.vars[t[1]] = sub
             try:
